@@ -304,27 +304,27 @@ pub fn property() -> Property {
     let roundtrip = prop_sub(
         "roundtrip",
         "generated lists of 0..8 pairs, lengths biased to 0,1,126..130,65534..65536,70000+, arbitrary bytes, output vector pre-filled; oracle: independent encoder (byte-exact) and decoders; non-trivial = >=2 pairs with a four-byte length",
-        20_000,
-        600_000,
+        200_000,
+        4_000_000,
         |_| boxed((proptest::collection::vec((blob_any(), blob_any()), 0..8), 0u16..40).prop_map(|(pairs, prefill)| PairList { pairs, prefill })),
         test_roundtrip,
     );
     let hostile = prop_sub(
         "hostile_bytes",
         "byte strings assembled from valid pairs (either length form), pairs announcing more than remains (up to 2^31-1), raw boundary bytes, cut anywhere; oracle: independent decoder, pointer containment, fused, into_inner = undecoded suffix, & / &mut agree, prefix-monotone over every prefix (<=400 bytes) or 200 sampled prefixes; non-trivial = >=1 pair decoded and decoding stops at an incomplete pair",
-        20_000,
-        600_000,
+        200_000,
+        4_000_000,
         |_| boxed((proptest::collection::vec(seg(), 0..7), prop_oneof![2 => Just(0xffffu16), 1 => any::<u16>()]).prop_map(|(segs, keep)| Hostile { segs, keep })),
         test_hostile,
     );
     let short: Box<dyn Sub> = Box::new(EnumSub::<Hex> {
         name: "exhaustive_short",
-        rule: "every byte string of length 0..=L over the alphabet {00,01,02,7f,80,81,ff} (L = 6 quick, 8 thorough), every prefix of each; same oracle as hostile_bytes; distinct by construction; non-trivial = length >= 2",
+        rule: "every byte string of length 0..=L over the alphabet {00,01,02,7f,80,81,ff} (L = 7 quick, 9 thorough), every prefix of each; same oracle as hostile_bytes; distinct by construction; non-trivial = length >= 2",
         exhaustive: Box::new(|_| true),
         guard_each: true,
         test: Box::new(test_short),
         body: Box::new(|tier, shard, n, sink| {
-            let maxlen = tier.pick(6usize, 8usize);
+            let maxlen = tier.pick(7usize, 9usize);
             for len in 0..=maxlen {
                 let total = 7u64.pow(len as u32);
                 let per = total.div_ceil(n as u64);
